@@ -121,12 +121,15 @@ impl Future for StatusFuture {
     self: std::pin::Pin<&mut Self>,
     cx: &mut std::task::Context<'_>,
   ) -> Poll<Self::Output> {
+    // register before looking at the flag: a terminal that lands after the
+    // check would otherwise find no waker to wake and the waiter would sleep
+    // for ever
+    self.0.waker.register(cx.waker());
+    #[cfg(feature = "verif_hooks")]
+    crate::verif_hooks::sched_point();
     if self.0.is_closed() {
       Poll::Ready(NormalReturn::new(()))
     } else {
-      #[cfg(feature = "verif_hooks")]
-      crate::verif_hooks::sched_point();
-      self.0.waker.register(cx.waker());
       Poll::Pending
     }
   }
